@@ -262,6 +262,19 @@ def direct_target(ctx, rng, ncfg, nev):
             ctx.count("dark-sky-channel")
             if not (o[0] <= r[0] * (1 + 1e-12) + 1e-300 and o[2] <= r[2] and close(o[1], r[1], 1e-12 * abs(r[1]))):
                 ctx.violation("dark-sky-channel", f"Target: with identical inputs the optical result {o[:3]!r} is not the radio result {r[:3]!r} minus the bright-sky events", wit)
+        # a second throw on the same object (the same instants in reverse order: same number of
+        # kept events, different dark-sky pattern): nothing from the first throw may survive
+        if cfg.detector.sun_moon.sun_moon_cuts:
+            g.throw((np.arange(N) / N)[::-1].copy())
+            L2 = np.array(g.pathLens())
+            if L2.size == nk:
+                mask2 = np.asarray(g.too_source.sun_moon_cut(g.val_times()), bool)
+                o2 = g.mcintegral(trig, cosch, pexit, thr, 1.0, 1.0, lenDec=np.minimum(lenDec, 0.5 * L2), method="Optical")
+                r2 = target_oracle(N, L2, np.minimum(lenDec, 0.5 * L2), trig, cosch, pexit, thr, 1.0, 1.0, mask2)
+                ctx.count("rethrow", nk)
+                if not (close(o2[0], r2[0], r2[3]) and int(o2[2]) == r2[2]):
+                    ctx.violation("history", f"Target [Optical]: after a second throw on the same object (instants reversed) mcintegral returns (integral {o2[0]!r}, passing {o2[2]}); independent evaluation with the dark-sky mask of the *current* instants gives ({r2[0]!r}, {r2[2]})", wit)
+            g.throw(N)
         # threshold ladder + history
         base = g.mcintegral(trig, cosch, pexit, thr, 1.0, 1.0, lenDec=lenDec, method="Radio")
         prev = None
@@ -391,7 +404,7 @@ def run(ctx):
     payloads += [{"kind": "direct", "what": "diffuse", "ncfg": ctx.pick(6, 30), "nev": ctx.pick(3000, 6000)} for _ in range(nd)]
     payloads += [{"kind": "direct", "what": "target", "ncfg": ctx.pick(2, 6), "nev": ctx.pick(2500, 6000)} for _ in range(nd)]
     core.run_shards(ctx, "nssmon.checks.c03", "shard", payloads, workers=min(16, len(payloads)))
-    for m in ("direct-diffuse", "direct-target", "target-column", "threshold-ladder", "history", "permutation", "fullrun-keywords", "fullrun-column"):
+    for m in ("direct-diffuse", "direct-target", "target-column", "threshold-ladder", "history", "rethrow", "permutation", "fullrun-keywords", "fullrun-column"):
         ctx.require(m)
     if ctx.obs.get("target_bright_instants_seen", 0) == 0 or ctx.obs.get("target_dark_instants_seen", 0) == 0:
         ctx.inconclusive_because("the dark-sky mask never took both values on the kept instants")
